@@ -589,11 +589,11 @@ pub fn get_value(
         Some(Function::Lower) => Variant::from_string(&function_arg.to_lowercase()),
         Some(Function::Upper) => Variant::from_string(&function_arg.to_uppercase()),
         Some(Function::InitCap) => {
+            // only the letters change: the blanks between the words stay as they are
             let result = function_arg
-                .split_whitespace()
+                .split_inclusive(char::is_whitespace)
                 .map(|s| capitalize(&s.to_lowercase()))
-                .collect::<Vec<_>>()
-                .join(" ");
+                .collect::<String>();
             Variant::from_string(&result)
         }
         // Get the length of the string
